@@ -569,6 +569,7 @@ class Sink:
         self.nontrivial = 0
         self.formatted = {"black": 0, "unavailable": 0}
         self.f5_hits = 0
+        self.shadow_hits = 0
         self.sample = None
 
     def count(self, key, n=1):
@@ -576,7 +577,9 @@ class Sink:
 
     def violation(self, sig, what, replay):
         self.violations.append((sig, what, replay))
-        if sig != "pyrepr:rule-enabled-lost":
+        if sig == "pyrepr:encapsulated-name-shadows-library":
+            self.shadow_hits += 1
+        elif sig != "pyrepr:rule-enabled-lost":
             self.oracle_violations += 1
 
 
@@ -1036,6 +1039,7 @@ def run(ctx, build, verdict, ev):
         st.oracle_violations += sk.oracle_violations
         st.nontrivial += sk.nontrivial
         st.f5_hits += sk.f5_hits
+        st.shadow_hits += sk.shadow_hits
         for k, v in sk.dist.items():
             st.count(k, v)
         for k, v in sk.formatted.items():
@@ -1097,6 +1101,7 @@ def run(ctx, build, verdict, ev):
     c["correspondence_mismatches"] = len(mism)
     c["oracle_violations"] = st.oracle_violations
     c["known_finding_hits_F5"] = st.f5_hits
+    c["known_finding_hits_class_name_shadow"] = st.shadow_hits
     c["samples"] = samples
     ev["assumptions"] += [
         "A-py: Python's parser/eval, reprlib, keyword binding and black are trusted; the model is about call trees (the implementation's text is parsed with Python's ast)",
